@@ -378,6 +378,11 @@ func (w *World) execInline(i int, op Op) (ev Event) {
 	// that was replaced through SetSearchParams keeps its pairs; an adopted list is another URL's).
 	// All pairs alive in the world count.
 	argLen += w.listBytes
+	if op.V != "" {
+		// the argument is taken from another object at execution time (a peer's getter value or
+		// serialization): it is at most that object's serialization long
+		argLen += len(w.Cur[op.S].Href)
+	}
 	if !w.sched {
 		rt.Count = 0
 		rt.Limit = stepLimit(argLen)
